@@ -7,7 +7,7 @@ use crate::engine::choice::{explore, CtlWriter, UniformWriter};
 use crate::par::par_ranks;
 use crate::report::{Acc, Ctx, Report, Sub};
 use crate::rv::{show_bytes, RV};
-use crate::util::guard;
+use crate::util::{guard, trunc};
 use lexpr::print::{DefaultFormatter, Printer};
 use lexpr::Value;
 use serde_json::{json, Value as J};
@@ -343,6 +343,72 @@ pub fn replay(sub: &str, case: &J, acc: &mut Acc) {
     }
 }
 
+/// One printer object used again after a print that failed: the second print delivers exactly
+/// its own text after whatever prefix of the first text the sink had accepted (seed C07-f1: a
+/// formatter that keeps a half-written token in a buffer of its own).
+fn check_printer_reuse(acc: &mut Acc, rank: u64, m1: &RV, m2: &RV, p: &PR) {
+    struct FailOnce {
+        data: Vec<u8>,
+        fail_at: usize,
+        fired: bool,
+        k: usize,
+    }
+    impl std::io::Write for FailOnce {
+        fn write(&mut self, buf: &[u8]) -> std::io::Result<usize> {
+            if buf.is_empty() {
+                return Ok(0);
+            }
+            if !self.fired && self.data.len() >= self.fail_at {
+                self.fired = true;
+                return Err(std::io::Error::new(crate::engine::choice::sink_fault_kind(self.data.len()), "injected write error"));
+            }
+            let mut n = buf.len().min(self.k);
+            if !self.fired {
+                n = n.min(self.fail_at - self.data.len());
+            }
+            self.data.extend_from_slice(&buf[..n]);
+            Ok(n)
+        }
+        fn flush(&mut self) -> std::io::Result<()> {
+            Ok(())
+        }
+    }
+    let (v1, v2) = (m1.to_value(), m2.to_value());
+    let o = p.to_lexpr();
+    let (t1, t2) = match (lexpr::print::to_string_custom(&v1, o), lexpr::print::to_string_custom(&v2, o)) {
+        (Ok(a), Ok(b)) => (a, b),
+        _ => return,
+    };
+    for fail_at in 0..t1.len() {
+        for k in [1usize, 64] {
+            acc.evals += 1;
+            let mut sink = FailOnce { data: Vec::new(), fail_at, fired: false, k };
+            let res = guard(std::panic::AssertUnwindSafe(|| {
+                let mut pr = Printer::with_options(&mut sink, o);
+                let r1 = pr.print(&v1).is_ok();
+                let r2 = pr.print(&v2).is_ok();
+                (r1, r2)
+            }));
+            let w = || format!("first={} second={} opts=[{}] fail_at={} k={}", trunc(&m1.to_string(), 60), trunc(&m2.to_string(), 60), p.describe(), fail_at, k);
+            let case = || json!({"reuse": [m1.to_string(), m2.to_string()], "opts": p.index()});
+            match res {
+                Err(pn) => acc.violation("printer-reuse", "panic", "panic", rank, w(), pn, case),
+                Ok((r1, r2)) => {
+                    acc.nontrivial += 1;
+                    acc.outcome(&(r1, r2));
+                    let mut want: Vec<u8> = t1.as_bytes()[..fail_at].to_vec();
+                    want.extend_from_slice(t2.as_bytes());
+                    if r1 {
+                        acc.violation("printer-reuse", "error-not-reported", "error-not-reported", rank, w(), "the first print hit the injected error but returned Ok".into(), case);
+                    } else if !r2 || sink.data != want {
+                        acc.violation("printer-reuse", "second-print-differs", "second-print-differs", rank, w(), format!("after the failed print the sink holds {:?}; the second print returned {} and the sink then holds {:?}, expected {:?}", show_bytes(&t1.as_bytes()[..fail_at]), if r2 { "Ok" } else { "Err" }, show_bytes(&sink.data), show_bytes(&want)), case);
+                    }
+                }
+            }
+        }
+    }
+}
+
 fn formatter_values() -> Vec<RV> {
     let mut v = actx();
     let ax = actx();
@@ -502,6 +568,21 @@ pub fn run(ctx: &Ctx) -> Report {
         let accs = par_ranks(vals.len() as u64, |rank, acc| {
             acc.sample(rank, || vals[rank as usize].to_string());
             run_display(acc, rank, &vals[rank as usize]);
+        });
+        rep.absorb(sub, accs);
+    }
+    if ctx.want("printer-reuse") {
+        let firsts: Vec<RV> = vec![RV::Char('λ'), RV::Char('\x7f'), RV::Char('a'), RV::str("a\"λ\n"), RV::sym("sym-bol"), RV::kw("kw"), RV::Int(-12345), RV::Float(1.5e21), RV::Bytes(vec![1, 200]), RV::list(vec![RV::Char('\0'), RV::str("s")]), RV::Vector(vec![RV::Int(12345), RV::Nil])];
+        let seconds: Vec<RV> = vec![RV::list(vec![RV::Char('\x7f'), RV::Int(1)]), RV::str("x"), RV::Int(42)];
+        let total = (firsts.len() * seconds.len() * corner.len()) as u64;
+        let sub = Sub::new("printer-reuse", "one Printer::with_options object used twice: the first print hits a one-time sink error at every offset (sink taking 1 or 64 bytes per call), the second print on the same printer then delivers exactly its own text after the accepted prefix of the first; 11 first values (every atom kind, a list, a vector) x 3 second values x the corner printer option sets", &format!("{} (first, second, options) triples", total));
+        let accs = par_ranks(total, |rank, acc| {
+            let r = rank as usize;
+            let p = &corner[r % corner.len()];
+            let m2 = &seconds[(r / corner.len()) % seconds.len()];
+            let m1 = &firsts[r / corner.len() / seconds.len()];
+            acc.sample(rank, || format!("{} then {} [{}]", m1, m2, p.describe()));
+            check_printer_reuse(acc, rank, m1, m2, p);
         });
         rep.absorb(sub, accs);
     }
